@@ -297,6 +297,8 @@ def type_of(v, heap=None):
             return T("arr2", et)
         if isinstance(o, HDict) and o.ktype is not None and o.vtype is not None:
             return T("dict", o.ktype, o.vtype, o.keys is not None)
+        if isinstance(o, HObj) and getattr(o, "ftypes", None):
+            return T("obj", o.cls, tuple(o.ftypes))
         if isinstance(o, HRec) and o.ftypes:
             return T("recseq", o.cls, tuple(sorted(o.ftypes.items(), key=lambda kv: kv[0])))
     if isinstance(v, VConc) and getattr(v, "gtype", None) is not None:
